@@ -4,4 +4,5 @@
 From Coq Require Extraction ExtrOcamlBasic.
 From Codec Require Script.
 From Topics Require Script.
-Extraction "model.ml" Codec.Script.run_codec Topics.Script.run_topics.
+From Ackq Require Model.
+Extraction "model.ml" Codec.Script.run_codec Topics.Script.run_topics Ackq.Model.run_ackq.
